@@ -63,6 +63,23 @@ pub fn cases(ctx: &Ctx) -> Vec<WCase> {
         s.settle_ms = 1500;
         out.push(wcase(format!("death-{i}"), s));
     }
+    // host-side player death with a spectator that is catching up, several frames per call, when it crosses the
+    // dropped player's last frame
+    for i in 0..ctx.n(1500, 60_000) {
+        let mut rr = r.fork(0x2800_0000 + i as u64);
+        let mut s = gen_death2(&mut rr, 500);
+        let k = s.kill.clone().unwrap();
+        let mut sp = SpecCfg::new(0);
+        sp.catchup = rr.pick(&[2usize, 3, 5, 8]);
+        sp.max_behind = rr.pick(&[1usize, 2, 5]);
+        // a slow spectator (ticks at 1/1.5 .. 1/3 of the host's rate) is permanently behind and catches up all the time; a
+        // pause would not do: with the short timeouts of this family the host would drop the silent spectator
+        sp.period_factor = rr.pick(&[1.5, 2.0, 3.0]);
+        let _ = k;
+        s.specs.push(sp);
+        s.settle_ms = 2000;
+        out.push(wcase(format!("deathcatchup-{i}"), s));
+    }
     // differential: the same scenario with and without spectators
     for i in 0..ctx.n(2000, 80_000) {
         let mut rr = r.fork(0x3000_0000 + i as u64);
